@@ -72,7 +72,8 @@ def generate(rng, repo_root, opts=None):
                 pre.append({"how": "type", "arg": "list" if cls == "IdealReservoir" else rng.choice(["none", "scalar"])})
     scn["pre_rejected"] = pre
     if kind == "shift":
-        k = rng.choice([1, 3, 2 ** 10, 2 ** 19, 2 ** 20, 5 * 2 ** 20 + 7, 2 ** 29 + 1, rng.randrange(1, 2 ** 30)])
+        k = rng.choice([1, 3, 2 ** 10, 2 ** 19, 2 ** 20, 5 * 2 ** 20 + 7, 2 ** 29 + 1, rng.randrange(1, 2 ** 30),
+                        2 ** 35, 2 ** 37 + 2 ** 20, 2 ** 40])   # shifts up to ~1e6 time units
         sgn = -1 if rng.random() < 0.3 else 1
         scn["shift"] = sgn * k * Q
         if cls == "SinglePhaseReservoir" and rng.random() < 0.35:
@@ -177,7 +178,10 @@ def _apply_pre(out, res, scn, t):
     return True
 
 
-def _close(a, b, rel):
+def _close(a, b, rel, floor=0.0):
+    """|a-b| <= rel * max(scale of a and b, floor).  ``floor`` is the natural scale of the quantity: a recovery
+    factor is a difference of O(1) scaled pseudopressures times nx, so its rounding error is absolute at that
+    scale even when the recovery itself is tiny (p_f close or equal to p_i)."""
     a = np.asarray(a, dtype=float)
     b = np.asarray(b, dtype=float)
     if a.shape != b.shape:
@@ -187,7 +191,7 @@ def _close(a, b, rel):
     with np.errstate(all="ignore"):
         if not np.array_equal(np.isnan(a), np.isnan(b)):
             return False, "nan-pattern"
-        scale = max(float(np.nanmax(np.abs(a))), float(np.nanmax(np.abs(b))), 1e-300)
+        scale = max(float(np.nanmax(np.abs(a))), float(np.nanmax(np.abs(b))), 1e-300, floor)
         d = float(np.nanmax(np.abs(a - b)))
     return d <= rel * scale, d / scale
 
@@ -252,7 +256,7 @@ def execute(ns, scn):
                 out.violate("1-shift", "recovery-one-raises", {"density": dens, "unshifted": x1, "shifted": x2})
                 return out
             if a1:
-                good, d = _close(v1, v2, tol_shift)
+                good, d = _close(v1, v2, tol_shift, floor=4.0 * o["nx"])
                 if not good:
                     out.violate("1-shift", "recovery" + ("-density" if dens else ""), {"rel_diff": d, "shift": c, "cls": cls})
                     return out
@@ -273,7 +277,7 @@ def execute(ns, scn):
                     out.violate("1-shift", "interpolator-eval-one-raises", {"unshifted": y1, "shifted": y2, "shift": c})
                     return out
                 if b1:
-                    good, d = _close(v1, v2, 10 * tol_shift)
+                    good, d = _close(v1, v2, 10 * tol_shift, floor=4.0 * o["nx"])
                     if not good:
                         out.violate("1-shift", "interpolator", {"rel_diff": d, "shift": c, "cls": cls})
                         return out
@@ -310,7 +314,7 @@ def execute(ns, scn):
                 out.violate("2-const", "recovery-one-raises", {"density": dens, "scalar": x1, "constant_schedule": x2})
                 return out
             if a1:
-                good, d = _close(v1, v2, 1e-12)
+                good, d = _close(v1, v2, 1e-12, floor=4.0 * o["nx"])
                 if not good:
                     out.violate("2-const", "recovery" + ("-density" if dens else ""), {"rel_diff": d, "cls": cls})
                     return out
